@@ -768,12 +768,22 @@ func nmove(wdt float64, subd int, zeit int, g *GlobalVarsMain, l *NitroSharedVar
 			}
 		} else if g.Q1[z] < 0 && g.Q1[z-1] < 0 {
 			if z > 1 {
-				l.KONV[z0] = (Carray[z+1]*g.Q1[z] - Carray[z]*g.Q1[z-1]) / g.DZ.Num
+				if z == g.DRAIDEP {
+					l.KONV[z0] = (Carray[z+1]*g.Q1[z] + Carray[z]*g.QDRAIN - Carray[z]*g.Q1[z-1]) / g.DZ.Num
+				} else {
+					l.KONV[z0] = (Carray[z+1]*g.Q1[z] - Carray[z]*g.Q1[z-1]) / g.DZ.Num
+				}
 			} else {
 				l.KONV[z0] = Carray[z+1] * g.Q1[z] / g.DZ.Num
 			}
 		} else if g.Q1[z] < 0 && g.Q1[z-1] >= 0 {
-			l.KONV[z0] = (Carray[z+1]*g.Q1[z] - Carray[z-1]*g.Q1[z-1]) / g.DZ.Num
+			if z == g.DRAIDEP {
+				// capillary rise can turn the flux at the lower boundary of the drain layer upwards
+				// while the drain is still running: the drain water leaves the layer anyway
+				l.KONV[z0] = (Carray[z+1]*g.Q1[z] + Carray[z]*g.QDRAIN - Carray[z-1]*g.Q1[z-1]) / g.DZ.Num
+			} else {
+				l.KONV[z0] = (Carray[z+1]*g.Q1[z] - Carray[z-1]*g.Q1[z-1]) / g.DZ.Num
+			}
 		}
 	}
 	g.DRAINLOSS = g.DRAINLOSS + g.QDRAIN*Carray[g.DRAIDEP]/g.DZ.Num*100*g.DZ.Num
